@@ -140,6 +140,119 @@ impl SeparableNonlinearModel for LateFail {
     }
 }
 
+/// a model with switchable faults (set_params / eval fail while the flag is up) that counts its set_params calls
+#[derive(Default)]
+struct Ctl { fail_set: std::cell::Cell<bool>, fail_eval: std::cell::Cell<bool>, sets: std::cell::Cell<usize> }
+struct Faulty { inner: varpro::model::SeparableModel<f64>, ctl: std::rc::Rc<Ctl> }
+impl SeparableNonlinearModel for Faulty {
+    type ScalarType = f64;
+    type Error = ModelError;
+    fn parameter_count(&self) -> usize { self.inner.parameter_count() }
+    fn base_function_count(&self) -> usize { self.inner.base_function_count() }
+    fn output_len(&self) -> usize { self.inner.output_len() }
+    fn set_params(&mut self, parameters: DVector<f64>) -> Result<(), Self::Error> {
+        self.ctl.sets.set(self.ctl.sets.get() + 1);
+        if self.ctl.fail_set.get() { return Err(ModelError::IncorrectParameterCount { expected: 0, actual: 0 }); }
+        self.inner.set_params(parameters)
+    }
+    fn params(&self) -> DVector<f64> { self.inner.params() }
+    fn eval(&self) -> Result<DMatrix<f64>, Self::Error> { if self.ctl.fail_eval.get() { Err(ModelError::DerivativeIndexOutOfBounds { index: 0 }) } else { self.inner.eval() } }
+    fn eval_partial_deriv(&self, derivative_index: usize) -> Result<DMatrix<f64>, Self::Error> { self.inner.eval_partial_deriv(derivative_index) }
+}
+
+/// C04: fit() reports success truthfully, returns a coherent no-worse state, and respects the caller's evaluation budget
+fn fit_cases(f: &mut Findings) {
+    use levenberg_marquardt::LevenbergMarquardt;
+    let (n, m, p) = (16usize, 2usize, 2usize);
+    for s in 1..=2usize {
+        for &pat in [100usize, 1].iter() {
+            let y = ydata(n, s);
+            let ctl = std::rc::Rc::new(Ctl::default());
+            let pr = LevMarProblemBuilder::mrhs(Faulty { inner: model(n, m, p), ctl: ctl.clone() }).observations(y.clone()).build().unwrap();
+            let obj0 = pr.residuals().map(|r| 0.5 * r.norm_squared()).unwrap_or(f64::INFINITY);
+            let before = ctl.sets.get();
+            let r = LevMarSolver::with_solver(LevenbergMarquardt::new().with_patience(pat)).fit(pr);
+            let evals = ctl.sets.get() - before;
+            let cfg = format!("for N={} M={} P={} S={} patience={}", n, m, p, s, pat);
+            let (fr, ok) = match r { Ok(fr) => (fr, true), Err(fr) => (fr, false) };
+            if ok != fr.minimization_report.termination.was_successful() { f.report("C04", "fit() returns Ok / Err contrary to the optimizer's termination reason", format!("({:?}, returned {}) {}", fr.minimization_report.termination, if ok { "Ok" } else { "Err" }, cfg)); }
+            // the optimizer's budget is patience * (P + 1) residual evaluations; every evaluation applies the parameters once
+            // (two extra applications are tolerated: the optimizer may restore the accepted point at the end)
+            if evals > pat * (p + 1) + 2 { f.report("C04", "fit() exceeds the evaluation budget of the supplied optimizer configuration", format!("({} parameter applications, budget {}) {}", evals, pat * (p + 1), cfg)); }
+            if ok {
+                let alpha = fr.nonlinear_parameters();
+                let o = oracle(n, m, p, alpha.as_slice(), &None, &y);
+                match (fr.problem.residuals(), fr.problem.linear_coefficients()) {
+                    (Some(res), Some(c)) => {
+                        if close(&colm(res.as_slice()), &colm(o.resid.as_slice())).is_some() || close(&c.into_owned(), &o.coeff).is_some() { f.report("C04 C02", "a successful fit result exposes residuals / coefficients that do not belong to its nonlinear parameters", cfg.clone()); }
+                        let obj = 0.5 * res.norm_squared();
+                        if (fr.minimization_report.objective_function - obj).abs() > 1e-9 * obj.max(1e-300) { f.report("C04", "the reported objective is not half the squared norm of the final residuals", format!("({:e} vs {:e}) {}", fr.minimization_report.objective_function, obj, cfg)); }
+                        if obj > obj0 * (1.0 + 1e-12) { f.report("C04", "a successful fit ends at a larger objective than the initial guess", format!("({:e} > {:e}) {}", obj, obj0, cfg)); }
+                    }
+                    _ => f.report("C04 C09", "a successful fit result exposes no residuals / coefficients", cfg.clone()),
+                }
+            }
+        }
+    }
+}
+
+/// C09 / C10: failing parameter applications and evaluations leave nothing behind, and later updates are history free
+fn fault_cases(f: &mut Findings) {
+    let (n, m, p) = (8usize, 2usize, 2usize);
+    let (a1, a2) = (vec![1.3, 4.0], vec![2.1, 6.5]);
+    for which in 0..2 {
+        let what = ["set_params of the model fails", "eval of the model fails"][which];
+        let ctl = std::rc::Rc::new(Ctl::default());
+        let mut pr = LevMarProblemBuilder::new(Faulty { inner: model(n, m, p), ctl: ctl.clone() }).observations(data(n)).build().unwrap();
+        pr.set_params(&DVector::from_vec(a1.clone()));
+        if which == 0 { ctl.fail_set.set(true) } else { ctl.fail_eval.set(true) }
+        pr.set_params(&DVector::from_vec(a2.clone()));
+        if pr.residuals().is_some() || pr.linear_coefficients().is_some() || pr.jacobian().is_some() { f.report("C09 C10", "residuals / coefficients / Jacobian are still exposed after a failed update", format!("({})", what)); }
+        ctl.fail_set.set(false); ctl.fail_eval.set(false);
+        pr.set_params(&DVector::from_vec(a2.clone()));
+        let mut fresh = LevMarProblemBuilder::new(model(n, m, p)).observations(data(n)).build().unwrap();
+        fresh.set_params(&DVector::from_vec(a2.clone()));
+        if pr.residuals().is_none() || pr.residuals() != fresh.residuals() || pr.jacobian() != fresh.jacobian() || pr.linear_coefficients().map(|c| c.into_owned()) != fresh.linear_coefficients().map(|c| c.into_owned()) {
+            f.report("C10 C09", "the state after a failed and a repeated update differs from a fresh problem at the same parameters", format!("({})", what));
+        }
+        // a fit whose model starts failing returns Err, without panicking
+        let ctl = std::rc::Rc::new(Ctl::default());
+        let pr = LevMarProblemBuilder::new(Faulty { inner: model(n, m, p), ctl: ctl.clone() }).observations(data(n)).build().unwrap();
+        if which == 0 { ctl.fail_set.set(true) } else { ctl.fail_eval.set(true) }
+        match std::panic::catch_unwind(std::panic::AssertUnwindSafe(|| LevMarSolver::default().fit(pr).is_ok())) {
+            Err(_) => f.report("C09 C08", "fit() panics when the model fails", format!("({})", what)),
+            Ok(true) => f.report("C09 C04", "fit() returns Ok although every model call failed", format!("({})", what)),
+            Ok(false) => {}
+        }
+    }
+}
+
+/// C18: the problem builder accepts exactly consistent inputs, names the violated requirement, starts at the model's parameters
+fn builder_cases(f: &mut Findings) {
+    // the error type is not nameable from outside the crate: it is judged by the variant name of its Debug form
+    let (n, m, p) = (8usize, 2usize, 2usize);
+    let w = DVector::from_fn(n, |i, _| 0.5 + 0.25 * i as f64);
+    let mut expect = |name: &str, r: Result<(), String>, want: &[&str]| {
+        let got = match &r { Ok(()) => "Ok".to_string(), Err(e) => e.split(|c: char| !c.is_alphanumeric()).next().unwrap_or("").to_string() };
+        if !want.contains(&got.as_str()) { f.report("C18", "the problem builder mis-judges a specification:", format!("{} -> {:?} (expected {:?})", name, r, want)); }
+    };
+    fn d<T, E: std::fmt::Debug>(r: Result<T, E>) -> Result<(), String> { r.map(|_| ()).map_err(|e| format!("{:?}", e)) }
+    expect("no observations", d(LevMarProblemBuilder::new(model(n, m, p)).build()), &["YDataMissing"]);
+    expect("no observations but weights", d(LevMarProblemBuilder::new(model(n, m, p)).weights(w.clone()).build()), &["YDataMissing"]);
+    expect("observations one row short", d(LevMarProblemBuilder::new(model(n, m, p)).observations(data(n - 1)).build()), &["InvalidLengthOfData"]);
+    expect("observations one row long (mrhs)", d(LevMarProblemBuilder::mrhs(model(n, m, p)).observations(ydata(n + 1, 2)).build()), &["InvalidLengthOfData"]);
+    expect("weights one element short", d(LevMarProblemBuilder::new(model(n, m, p)).observations(data(n)).weights(DVector::from_element(n - 1, 1.0)).build()), &["InvalidLengthOfWeights"]);
+    expect("weights one element long, given before the observations", d(LevMarProblemBuilder::new(model(n, m, p)).weights(DVector::from_element(n + 1, 1.0)).observations(data(n)).build()), &["InvalidLengthOfWeights"]);
+    expect("empty observations", d(LevMarProblemBuilder::new(model(n, m, p)).observations(DVector::zeros(0)).build()), &["ZeroLengthVector", "InvalidLengthOfData"]);
+    expect("consistent inputs", d(LevMarProblemBuilder::new(model(n, m, p)).observations(data(n)).weights(w.clone()).build()), &["Ok"]);
+    expect("consistent inputs (mrhs, 3 columns)", d(LevMarProblemBuilder::mrhs(model(n, m, p)).observations(ydata(n, 3)).build()), &["Ok"]);
+    // order of builder calls, and the sign of the threshold, do not matter
+    let a = LevMarProblemBuilder::new(model(n, m, p)).observations(data(n)).weights(w.clone()).epsilon(1e-3).build().unwrap();
+    let b = LevMarProblemBuilder::new(model(n, m, p)).epsilon(-1e-3).weights(w.clone()).observations(data(n)).build().unwrap();
+    if a.residuals() != b.residuals() || a.jacobian() != b.jacobian() || a.params() != b.params() { f.report("C18", "the order of builder calls (or the sign of the threshold) changes the built problem", String::new()); }
+    if a.params().as_slice() != [1.5, 3.5] { f.report("C18", "the built problem does not start at the model's initial parameters", format!("{:?}", a.params().as_slice())); }
+}
+
 fn algebra_sweep() {
     let mut f = Findings::new();
     for &(n, m, p) in [(8usize, 2usize, 2usize), (9, 3, 2)].iter() {
@@ -262,7 +375,25 @@ fn algebra_sweep() {
         let pr = LevMarProblemBuilder::new(Flaky { inner: model(n, m, p), fail_at }).observations(data(n)).build().unwrap();
         if pr.jacobian().is_some() { f.report("C09 C03", "jacobian() is Some although eval_partial_deriv reported an error", format!("for the derivative with index {} of 2", fail_at)); }
     }
-    f.finish("the algebra sweep (18 configurations, best_fit, failing derivatives) agrees with the independent oracle");
+    // C18 (threshold): a negative threshold acts like its absolute value (tiny column truncated as with +1e-3)
+    {
+        let n = 12usize;
+        let x = DVector::from_fn(n, |i, _| 10. * i as f64 / (n - 1) as f64);
+        let tiny = || SeparableModelBuilder::<f64>::new(&["tau"]).initial_parameters(vec![2.0]).independent_variable(x.clone())
+            .function(&["tau"], |x: &DVector<f64>, tau: f64| x.map(|x| (-x / tau).exp())).partial_deriv("tau", |x: &DVector<f64>, tau: f64| x.map(|x| (-x / tau).exp() * x / (tau * tau)))
+            .invariant_function(|x: &DVector<f64>| 1e-6 * x).build().unwrap();
+        let y = DVector::from_fn(n, |i, _| 3. * (-x[i] / 2.).exp() + 0.3);
+        let pos = LevMarProblemBuilder::new(tiny()).observations(y.clone()).epsilon(1e-3).build().unwrap();
+        let neg = LevMarProblemBuilder::new(tiny()).observations(y.clone()).epsilon(-1e-3).build().unwrap();
+        let dflt = LevMarProblemBuilder::new(tiny()).observations(y.clone()).build().unwrap();
+        let c = |pr: &varpro::solvers::levmar::LevMarProblem<varpro::model::SeparableModel<f64>, false, false>| pr.linear_coefficients().map(|c| c.into_owned());
+        if c(&pos) != c(&neg) { f.report("C18 C01", "a negative singular-value threshold does not act like its absolute value", format!("{:?} vs {:?}", c(&pos), c(&neg))); }
+        if c(&pos) == c(&dflt) { f.report("C18 C01", "a supplied singular-value threshold has no effect (same coefficients as with the default)", String::new()); }
+    }
+    fit_cases(&mut f);
+    fault_cases(&mut f);
+    builder_cases(&mut f);
+    f.finish("the algebra sweep (18 configurations, rank-deficient and thresholded cases, best_fit, fits under two budgets, failing models, the problem-builder matrix) agrees with the independent oracle");
 }
 
 fn stats_sweep() {
@@ -304,6 +435,22 @@ fn stats_sweep() {
         if close(&colm(st.nonlinear_parameters_variance().as_slice()), &colm(&d.as_slice()[m..m + p])).is_some() { f.report("C13", "nonlinear_parameters_variance() is not the trailing diagonal segment", cfg.clone()); }
         let corr = DMatrix::from_fn(m + p, m + p, |a, b| cov[(a, b)] / (cov[(a, a)] * cov[(b, b)]).sqrt());
         if close(&st.calculate_correlation_matrix(), &corr).is_some() { f.report("C13", "calculate_correlation_matrix() differs from c_ij / sqrt(c_ii c_jj)", cfg.clone()); }
+        if (st.regression_standard_error() - chi2.sqrt()).abs() > 1e-6 * chi2.sqrt() { f.report(&format!("C12{}", wt), "regression_standard_error() is not the square root of the reduced chi2", cfg.clone()); }
+        let cm = st.covariance_matrix();
+        let cs = cm.amax();
+        if (0..m + p).any(|a| cm[(a, a)] < 0.0 || (0..m + p).any(|b| (cm[(a, b)] - cm[(b, a)]).abs() > 1e-9 * cs)) { f.report("C13", "covariance_matrix() is not symmetric with a non-negative diagonal", cfg.clone()); }
+        let cr = st.calculate_correlation_matrix();
+        if (0..m + p).any(|a| (cr[(a, a)] - 1.0).abs() > 1e-9 || (0..m + p).any(|b| cr[(a, b)].abs() > 1.0 + 1e-9)) { f.report("C13", "the correlation matrix does not have a unit diagonal and entries in [-1, 1]", cfg.clone()); }
+        let (b5, b9, b99) = (st.confidence_band_radius(0.5), st.confidence_band_radius(0.9), st.confidence_band_radius(0.99));
+        if (0..n).any(|i| !(b5[i] >= 0.0 && b5[i] <= b9[i] && b9[i] <= b99[i] && b99[i].is_finite())) { f.report(&format!("C14{}", wt), "confidence_band_radius is not finite, non-negative and non-decreasing in the probability (0.5, 0.9, 0.99)", cfg.clone()); }
+        if wk == 0 {
+            let hook = std::panic::take_hook();
+            std::panic::set_hook(Box::new(|_| {}));
+            for bad in [0.0, 1.0, -0.25, 1.5, f64::NAN, f64::INFINITY] {
+                if std::panic::catch_unwind(std::panic::AssertUnwindSafe(|| st.confidence_band_radius(bad))).is_ok() { f.report("C14", "confidence_band_radius accepts a probability outside (0, 1)", format!("(p = {})", bad)); }
+            }
+            std::panic::set_hook(hook);
+        }
         // the band radius is t * sqrt(j_i^T Cov j_i) with rows of the UNWEIGHTED J: the ratio must be the same for every sample
         let band = st.confidence_band_radius(0.9);
         let sig: Vec<f64> = (0..n).map(|i| (j.row(i) * &cov * j.row(i).transpose())[(0, 0)].sqrt()).collect();
